@@ -349,6 +349,7 @@ struct mres {
     struct mhost host;          /* V_ACCEPT, or V_EITHER: the interpretation allowed if accepted */
     bool alt_name;              /* V_EITHER: "a DNS name equal to the text" is allowed as well */
     bool host_free;             /* V_EITHER: no constraint on the host at all */
+    unsigned char oddc;         /* tag dns-name-odd-char: the (last) byte outside the host-name alphabet */
     long port;                  /* decimal value of the port field, -1 unknown */
     const char *pf;             /* port field */
     size_t pf_len;
@@ -527,17 +528,27 @@ static enum verdict m_host(const char *s, size_t n, struct mres *r)
         return V_ACCEPT;
     }
     if (n > M_DNS_MAX) { r->tag = "host=too-long"; return V_REJECT; }
-    bool numeric = true, underscore = false;
+    /* Characters.  Letters, digits, hyphen and dot are the host-name alphabet.  Must-reject is
+     * kept to what the documented grammar itself excludes: blanks and control characters (no
+     * documented component contains any), brackets (they delimit the IPv6 forms and must pair up
+     * around the whole host) and ':' outside brackets (the port separator; IPv6 text must be
+     * bracketed).  Whether any OTHER byte ('_', '*' inside a name, '\\', '+', 8-bit, ...) may occur
+     * in a "<DNS domain name>" is not said in xcm.h (RFC 2181 section 11 allows any octet in a DNS
+     * label, the host-name rules of RFC 952/1123 do not): no verdict, but if accepted then only
+     * as a name equal to the text. */
+    bool numeric = true, oddchar = false;
     for (size_t i = 0; i < n; i++) {
-        char c = s[i];
-        if (is_digit(c) || c == '.')
+        unsigned char c = (unsigned char)s[i];
+        if (is_digit((char)c) || c == '.')
             continue;
         numeric = false;
         if ((c >= 'a' && c <= 'z') || (c >= 'A' && c <= 'Z') || c == '-')
             continue;
-        if (c == '_') { underscore = true; continue; }
-        r->tag = "host=bad-char";
-        return V_REJECT;
+        if (c <= 0x20 || c == 0x7f) { r->tag = "host=blank-or-control-char"; return V_REJECT; }
+        if (c == '[' || c == ']') { r->tag = "host=unbalanced-bracket"; return V_REJECT; }
+        if (c == ':') { r->tag = "host=colon-outside-brackets"; return V_REJECT; }
+        oddchar = true;
+        r->oddc = c;
     }
     if (numeric) {
         bool lz;
@@ -563,7 +574,8 @@ static enum verdict m_host(const char *s, size_t n, struct mres *r)
     h->kind = H_NAME;
     h->name = s;
     h->name_len = n;
-    bool odd = underscore;
+    if (oddchar) { r->tag = "dns-name-odd-char"; return V_EITHER; }
+    bool odd = false;
     size_t ls = 0;
     for (size_t i = 0; i <= n; i++) {
         if (i == n || s[i] == '.') {
@@ -805,7 +817,7 @@ static void finding(const char *sig, const struct tb *text, const struct tb *one
 
 static void info(const char *key, const struct tb *text)
 {
-    static char seen[16][64];
+    static char seen[300][64];
     static int nseen;
     if (verbose) {
         out_f("INFO %s: %s\n", key, text->p);
@@ -814,8 +826,10 @@ static void info(const char *key, const struct tb *text)
     for (int i = 0; i < nseen; i++)
         if (strcmp(seen[i], key) == 0)
             return;
-    if (nseen < 16)
+    if (nseen < 300)
         snprintf(seen[nseen++], 64, "%s", key);
+    else
+        return;
     out_f("{\"t\":\"info\",\"key\":");
     out_jstr(key, strlen(key));
     out_f(",\"text\":");
@@ -901,8 +915,9 @@ static void report_death(const char *kind)
 static void death_cb(void) { report_death("sanitizer"); }
 static void on_abort(int sig) { (void)sig; report_death("abort"); signal(SIGABRT, SIG_DFL); }
 
-/* watchdog: "the parsers terminate".  A case takes microseconds; no progress for a whole
- * period (5 s) means the current call does not return. */
+/* watchdog: "the parsers terminate".  A case takes microseconds; no progress during a whole
+ * period of 5 s of this process's own CPU time (ITIMER_PROF: a starved or stopped process does
+ * not age, so machine load cannot fake a hang) means the current call does not return. */
 static uint64_t wd_last = (uint64_t)-1;
 static void on_alarm(int sig)
 {
@@ -947,21 +962,29 @@ static void in_release(char *b, size_t n)
 #define CANARY 0xA5
 static char *out_blk;
 
+static size_t out_prev = OUT_BLK;       /* length of the tail that may differ from the canary */
+
 static char *out_buf(size_t cap)
 {
-    if (!out_blk)
+    if (!out_blk) {
         out_blk = malloc(OUT_BLK);
-    memset(out_blk, CANARY, OUT_BLK);
+        out_prev = OUT_BLK;
+    }
+    memset(out_blk + OUT_BLK - out_prev, CANARY, out_prev);     /* whole block = canary again */
+    out_prev = cap;
     return out_blk + OUT_BLK - cap;
 }
 
 /* true if a byte in front of the buffer was modified */
 static bool out_underflow(size_t cap)
 {
-    for (size_t i = 0; i < OUT_BLK - cap; i++)
-        if ((unsigned char)out_blk[i] != CANARY)
-            return true;
-    return false;
+    static char ref[OUT_BLK];
+    if ((unsigned char)ref[0] != CANARY)
+        memset(ref, CANARY, sizeof ref);
+    bool bad = memcmp(out_blk, ref, OUT_BLK - cap) != 0;
+    if (bad)
+        out_prev = OUT_BLK;
+    return bad;
 }
 
 /* fixed-size output objects, each its own exact heap block */
@@ -1161,6 +1184,8 @@ struct origin {
 };
 
 static int short_len_tcp = 5, short_len_other = 4;      /* tier: L of the short-string family */
+static int dd_len_tcp = -1, dd_len_other = -1;          /* L of the family as run by ANY pass of the
+                                                         * check (for counting distinct states) */
 static const char ALPHABET[] = "tcp:[]*.-+019a ";
 #define NALPHA 15
 
@@ -1168,12 +1193,14 @@ static const char ALPHABET[] = "tcp:[]*.-+019a ";
  * same (function, string) pair reached through another family is not counted twice. */
 static bool in_short_family(const char *s, size_t n)
 {
-    size_t off = 0, lim = (size_t)short_len_other;
+    int ltcp = dd_len_tcp > short_len_tcp ? dd_len_tcp : short_len_tcp;
+    int loth = dd_len_other > short_len_other ? dd_len_other : short_len_other;
+    size_t off = 0, lim = (size_t)loth;
     for (int t = 0; t < NT; t++) {
         size_t pl = strlen(tp_name[t]);
         if (n > pl && memcmp(s, tp_name[t], pl) == 0 && s[pl] == ':') {
             off = pl + 1;
-            lim = t == T_TCP ? (size_t)short_len_tcp : (size_t)short_len_other;
+            lim = t == T_TCP ? (size_t)ltcp : (size_t)loth;
             break;
         }
     }
@@ -1288,6 +1315,17 @@ static void judge_typed(const struct fdesc *f, const char *s, size_t n, const st
         return;
     }
     /* accepted */
+    if (m->v == V_EITHER && m->tag && strcmp(m->tag, "dns-name-odd-char") == 0) {
+        char key[64];
+        struct tb t = { 0 };
+        snprintf(key, sizeof key, "dns-name-odd-char-accepted/byte=0x%02x", m->oddc);
+        tb_f(&t, "%s accepts ", f->name);
+        tb_cstr(&t, s, n);
+        tb_f(&t, ": byte 0x%02x in a DNS name (outside letters, digits, '-', '.'; xcm.h is silent, no verdict)",
+             m->oddc);
+        info(key, &t);
+        free(t.p);
+    }
     if (m->v == V_REJECT) {
         char sig[160];
         const char *tag = m->tag;
@@ -2278,8 +2316,10 @@ static void fam_misc(void)
  * every capacity 0..len+2 (the 19-call check above uses the always-sufficient sizes) */
 static void capacity_case(const struct fdesc *f, const char *s, size_t n, size_t cap)
 {
-    if (case_idx++ < from_idx)
+    if (case_idx < from_idx) {
+        case_idx++;
         return;
+    }
     st.cases++;
     char *in = in_block(s, n);
     struct pres p;
@@ -2300,6 +2340,7 @@ static void capacity_case(const struct fdesc *f, const char *s, size_t n, size_t
     }
     cur.fn = NULL;
     in_release(in, n);
+    case_idx++;
 }
 
 static void fam_parse_capacity(void)
@@ -2452,8 +2493,8 @@ static void run_batch(const struct batch *b)
 static int usage(void)
 {
     fprintf(stderr,
-            "usage: h_addr [--tier quick|thorough] --list\n"
-            "       h_addr [--tier quick|thorough] --batch N [--from CASE]\n"
+            "usage: h_addr [--tier quick|thorough] [--ltcp L --lother L] --list\n"
+            "       h_addr [--tier quick|thorough] [--ltcp L --lother L] --batch N [--from CASE]\n"
             "       h_addr --one parse <pct-string>\n"
             "       h_addr --one make_<tp>|<compat make> <4/a.b.c.d|6/ipv6|n/name> <port> <capacity>\n"
             "       h_addr --one make_ux|make_uxf|ux_make <pct-name> <capacity>\n"
@@ -2506,10 +2547,18 @@ static int run_one(int argc, char **argv)
 int main(int argc, char **argv)
 {
     const char *tier = "quick";
-    int list = 0, one_at = -1;
+    int list = 0, one_at = -1, ltcp = -1, lother = -1;
     for (int i = 1; i < argc; i++) {
         if (strcmp(argv[i], "--tier") == 0 && i + 1 < argc)
             tier = argv[++i];
+        else if (strcmp(argv[i], "--ltcp") == 0 && i + 1 < argc)
+            ltcp = atoi(argv[++i]);
+        else if (strcmp(argv[i], "--lother") == 0 && i + 1 < argc)
+            lother = atoi(argv[++i]);
+        else if (strcmp(argv[i], "--dd-ltcp") == 0 && i + 1 < argc)
+            dd_len_tcp = atoi(argv[++i]);
+        else if (strcmp(argv[i], "--dd-lother") == 0 && i + 1 < argc)
+            dd_len_other = atoi(argv[++i]);
         else if (strcmp(argv[i], "--list") == 0)
             list = 1;
         else if (strcmp(argv[i], "--batch") == 0 && i + 1 < argc)
@@ -2526,6 +2575,14 @@ int main(int argc, char **argv)
         short_len_tcp = 6;
         short_len_other = 5;
     } else if (strcmp(tier, "quick") != 0)
+        return usage();
+    /* explicit bounds of the short-string family (ii): C12.py runs the sanitizer build one length
+     * below the plain build */
+    if (ltcp >= 0)
+        short_len_tcp = ltcp;
+    if (lother >= 0)
+        short_len_other = lother;
+    if (short_len_tcp < 1 || short_len_tcp > 8 || short_len_other < 1 || short_len_other > 8)
         return usage();
 
     for (int i = 0; i < N_HOSTS; i++)
@@ -2556,9 +2613,9 @@ int main(int argc, char **argv)
         return usage();
 
     struct sigaction sa = { .sa_handler = on_alarm };
-    sigaction(SIGALRM, &sa, NULL);
+    sigaction(SIGPROF, &sa, NULL);
     struct itimerval it = { { 5, 0 }, { 5, 0 } };
-    setitimer(ITIMER_REAL, &it, NULL);
+    setitimer(ITIMER_PROF, &it, NULL);
 
     run_batch(&batches[batch_id]);
     print_stats();
